@@ -60,7 +60,44 @@ func (l sLabelSet) encode() string {
 		}
 		v = "b" + rr + "/" + fbitsList(l.obs)
 	}
-	return hxs(l.labels) + "^" + v + "^" + strconv.FormatInt(l.tNs, 10)
+	return hxs(l.labels) + "^" + v + "^" + strconv.FormatInt(l.tNs, 10) + "^" + hxs(l.oracle())
+}
+
+// oracle lists the strings Go's fmt produces for this datum, computed here directly (not
+// through mtail): ValueString, then for Buckets the bin name of every bucket in slice order.
+func (l sLabelSet) oracle() []string {
+	switch l.kind {
+	case 'i':
+		return []string{fmt.Sprintf("%d", l.i)}
+	case 'f':
+		return []string{fmt.Sprintf("%g", l.f)}
+	case 's':
+		return []string{l.s}
+	case 'b':
+		sum := 0.0
+		for _, v := range l.obs {
+			sum += v
+		}
+		o := []string{fmt.Sprintf("%g", sum)}
+		seenInf := false
+		highest := 0.0
+		for _, r := range l.ranges {
+			if math.IsInf(r.Max, 1) {
+				seenInf = true
+				o = append(o, "inf")
+			} else {
+				if r.Max > highest {
+					highest = r.Max
+				}
+				o = append(o, fmt.Sprintf("%v", r.Max))
+			}
+		}
+		if !seenInf {
+			o = append(o, "inf")
+		}
+		return o
+	}
+	return nil
 }
 
 func (m sMetric) encode() string {
@@ -173,6 +210,7 @@ var genFloats = []float64{0.5, math.Copysign(0, -1), 1e308, math.NaN(), math.Inf
 type storeGenOpts struct {
 	cleanNames  bool // only representable names/keys/values (for formats without validation)
 	noSeparator bool // label values without whitespace or separators
+	utf8Only    bool // no invalid UTF-8 in label or text values (JSON cannot carry them)
 	maxMetrics  int
 }
 
@@ -259,6 +297,13 @@ func genStore(r *rng, o storeGenOpts) []sMetric {
 					labels[q] = []string{"a", "v1", "v2", "b\\c", "\xc3\xa9", "q"}[r.intn(6)]
 				}
 			}
+			if o.utf8Only {
+				for q := range labels {
+					if labels[q] == "\xff" {
+						labels[q] = "u"
+					}
+				}
+			}
 			if seenL[strings.Join(labels, "\x00")] {
 				continue
 			}
@@ -277,6 +322,9 @@ func genStore(r *rng, o storeGenOpts) []sMetric {
 				}
 			case metrics.String:
 				l.kind, l.s = 's', genVals[r.intn(len(genVals))]
+				if o.utf8Only && l.s == "\xff" {
+					l.s = "text"
+				}
 			case metrics.Buckets:
 				l.kind, l.ranges = 'b', ranges
 				no := r.intn(6)
